@@ -45,7 +45,7 @@ from typing import Dict, List, Literal, Optional, Set, Tuple, Union
 
 import yaml  # PyYAML itself (not jsonargparse's loader): only to know which look-alike texts spell a container or null
 
-from bounded.common import Harness, outcome
+from bounded.common import Harness, outcome, quiet
 
 import jsonargparse._typehints as jth
 from jsonargparse import ArgumentParser
@@ -702,6 +702,41 @@ def work(job):
     return out
 
 
+def container_union_part(h):
+    """order, for Unions whose members are containers with *different* element types: a member that rejects a value after converting some of its
+    elements must not change what the next member sees (acceptance and value are the same for every order of the members)."""
+    import itertools
+    from typing import Dict, List, Set, Tuple, Union
+
+    from jsonargparse import ArgumentParser
+
+    cases = [
+        ((List[float], Tuple[int, str]), [[1, "a"], [1, 2], ["a", 1], [1.5, "a"]]),
+        ((List[float], List[Union[int, str]]), [[1, "a"], [1, 2.5], [1, 2]]),
+        ((Dict[str, float], Dict[str, Union[int, str]]), [{"a": 1, "b": "x"}, {"a": 1, "b": 2.5}, {"a": 1}]),
+        ((List[List[float]], List[Tuple[int, str]]), [[[1, "a"]], [[1, 2]]]),
+        ((Set[float], Tuple[int, str], List[str]), [[1, "a"], ["a", "b"], [1, 2]]),
+        ((Dict[str, List[float]], Dict[str, Tuple[int, str]]), [{"k": [1, "a"]}, {"k": [1, 2]}]),
+    ]
+    for members, values in cases:
+        name = "|".join(sorted(str(m).replace("typing.", "") for m in members))
+        for v in values:
+            seen = {}
+            for perm in itertools.permutations(members):
+                hint = Union._getitem(Union, tuple(perm)) if hasattr(Union, "_getitem") else Union[perm]
+                try:
+                    with quiet():
+                        p = ArgumentParser(exit_on_error=False)
+                        p.add_argument("--k", type=hint)
+                        r = p.parse_object({"k": json.loads(json.dumps(v))}).k
+                    out = "accepted"
+                except BaseException:  # noqa
+                    out = "rejected"
+                seen[",".join(str(m).replace("typing.", "") for m in perm)] = out
+            h.check(len(set(seen.values())) == 1, f"c02:order:container-members:{name}<-{json.dumps(v)}", f"acceptance depends on the order of the Union members: {seen}", {"members": name, "value": v, "by order": seen})
+            h.nontrivial(("container-union", name, json.dumps(v)))
+
+
 def main():
     if os.environ.get("PYTHONHASHSEED") != "0":
         # python sets of strings / enum members are among the candidate values; the order in which the code under test meets their
@@ -736,6 +771,7 @@ def main():
     h.note(f"types {len(types)} (depth histogram {[sum(1 for t in types if t.depth == d) for d in range(5)]}); {stats}")
     h.note("violating cases per (check, symptom): " + "; ".join(f"{k[0]}/{k[1]}={n}" for k, n in sorted(slots.items()))[:3000])
     h.check(stats["accepted"] > 1000 and stats["rejected"] > 1000 and stats["spec_known"] > 1000, "c02:harness:vacuous", f"too few accepted/rejected/specified cases: {stats}", None)
+    container_union_part(h)
     sys.exit(h.finish(exhaustive=True, bound=f"{len(types)} type hints up to nesting depth 4 ({'thorough: all depth-2 constructions over depth 1, 400 seeded random deeper types' if h.thorough else 'quick selection, see rule'}); "
                       "per hint: conforming values, one position replaced by each of <= 12 candidates of the position's type, arity +-1, other container kinds, "
                       f"{len(SCALAR_POOL)} scalars incl. {len(LOOKALIKE)} look-alike strings; channels parse_object and argv"))
